@@ -357,12 +357,16 @@ def do_replay(job, res, prop, desc, ctx, outdir):
                ASAN_OPTIONS='detect_leaks=0:abort_on_error=0', UBSAN_OPTIONS='print_stacktrace=1')
     try:
         r = subprocess.run([exe], capture_output=True, text=True, env=env, timeout=60, cwd=outdir)
-        out = (r.stdout + r.stderr)[-1500:]
+        full = r.stdout + r.stderr
+        out = full[-1500:]
+        m = re.search(r'(ERROR: AddressSanitizer[^\n]*|runtime error:[^\n]*|SUMMARY: [^\n]*)', full)
+        if m:
+            out = m.group(1) + ' ... ' + out[-600:]
         info['native_rc'] = r.returncode
         info['native_out'] = out
-        if r.returncode == 1 and 'REPLAY-ASSERT-FAIL' in out:
+        if r.returncode == 1 and 'REPLAY-ASSERT-FAIL' in full:
             info['confirmed'] = True
-        elif r.returncode not in (0, 77, 78) and ('Sanitizer' in out or 'runtime error' in out or r.returncode < 0):
+        elif r.returncode not in (0, 77, 78) and ('Sanitizer' in full or 'runtime error' in full or r.returncode < 0):
             info['confirmed'] = True
         else:
             info['confirmed'] = False
